@@ -27,6 +27,13 @@ def _pure(e):
     return not any(isinstance(x, (ast.Call, ast.Await, ast.Yield, ast.YieldFrom, ast.NamedExpr)) for x in ast.walk(e))
 
 
+def _sel_simple(e):
+    if isinstance(e, (ast.Name, ast.Constant)): return True
+    if isinstance(e, ast.Attribute): return _sel_simple(e.value)
+    if isinstance(e, ast.UnaryOp) and isinstance(e.op, (ast.USub, ast.UAdd)): return _sel_simple(e.operand)
+    return False
+
+
 class _Norm(ast.NodeTransformer):
     def visit_If(self, node):
         self.generic_visit(node)
@@ -56,6 +63,94 @@ class _Norm(ast.NodeTransformer):
             new = ast.Compare(left=node.comparators[0], ops=[FLIP[type(node.ops[0])]()], comparators=[node.left])
             return ast.copy_location(new, node)
         return node
+
+    # N9: comprehension spelling.  A reducer applied to a generator expression is written with the list comprehension
+    # (sum(x for ..) -> sum([x for ..])); a set / dict comprehension is written as set([..]) / dict([(k, v) ..]).
+    REDUCERS = ('sum', 'min', 'max', 'any', 'all', 'set', 'tuple', 'sorted', 'list', 'frozenset', 'dict', 'join')
+
+    def visit_Call(self, node):
+        self.generic_visit(node)
+        fn = node.func.id if isinstance(node.func, ast.Name) else (node.func.attr if isinstance(node.func, ast.Attribute) else None)
+        if fn in self.REDUCERS and node.args and isinstance(node.args[0], ast.GeneratorExp):
+            g = node.args[0]
+            node.args[0] = ast.copy_location(ast.ListComp(elt=g.elt, generators=g.generators), g)
+        # N14: X.get(K, D) is `X[K] if K in X else D` (simple X, K, D)
+        if isinstance(node.func, ast.Attribute) and fn == 'get' and len(node.args) in (1, 2) and not node.keywords and _sel_simple(node.func.value) \
+           and _sel_simple(node.args[0]) and (len(node.args) == 1 or _sel_simple(node.args[1])):
+            X, K = node.func.value, node.args[0]
+            D = node.args[1] if len(node.args) == 2 else ast.copy_location(ast.Constant(value=None), node)
+            test = ast.copy_location(ast.Compare(left=K, ops=[ast.In()], comparators=[X]), node)
+            sub = ast.copy_location(ast.Subscript(value=copy.deepcopy(X), slice=copy.deepcopy(K), ctx=ast.Load()), node)
+            return ast.copy_location(ast.IfExp(test=test, body=sub, orelse=D), node)
+        if isinstance(node.func, ast.Name) and fn == 'getattr' and len(node.args) == 2 and not node.keywords and isinstance(node.args[1], ast.Constant) \
+           and isinstance(node.args[1].value, str) and node.args[1].value.isidentifier() and _sel_simple(node.args[0]):
+            return ast.copy_location(ast.Attribute(value=node.args[0], attr=node.args[1].value, ctx=ast.Load()), node)
+        return node
+
+    # N11: the two-element selector `[a, b][cond]` is the conditional expression `b if cond else a` (a, b simple)
+    def visit_Subscript(self, node):
+        self.generic_visit(node)
+        v, c = node.value, node.slice
+        if isinstance(node.ctx, ast.Load) and isinstance(v, (ast.List, ast.Tuple)) and len(v.elts) == 2 and not isinstance(c, (ast.Constant, ast.Slice)) \
+           and all(_sel_simple(x) for x in v.elts):
+            return self.visit_IfExp_only(ast.copy_location(ast.IfExp(test=c, body=v.elts[1], orelse=v.elts[0]), node))
+        return node
+
+    def visit_IfExp_only(self, node):
+        t = node.test
+        if isinstance(t, ast.UnaryOp) and isinstance(t.op, ast.Not):
+            return ast.copy_location(ast.IfExp(test=t.operand, body=node.orelse, orelse=node.body), node)
+        return node
+
+    # N12: getattr(x, 'name') / setattr(x, 'name', v) with a literal identifier are the attribute access / store
+    def visit_Expr(self, node):
+        self.generic_visit(node)
+        c = node.value
+        if isinstance(c, ast.Call) and isinstance(c.func, ast.Name) and c.func.id == 'setattr' and len(c.args) == 3 and not c.keywords and \
+           isinstance(c.args[1], ast.Constant) and isinstance(c.args[1].value, str) and c.args[1].value.isidentifier() and _sel_simple(c.args[0]):
+            tgt = ast.copy_location(ast.Attribute(value=c.args[0], attr=c.args[1].value, ctx=ast.Store()), c)
+            return ast.copy_location(ast.Assign(targets=[tgt], value=c.args[2]), node)
+        return node
+
+    # N17: `a <= x and x <= b` with a call-free x is the chained comparison `a <= x <= b`
+    def visit_BoolOp(self, node):
+        self.generic_visit(node)
+        if not isinstance(node.op, ast.And): return node
+        vals = list(node.values)
+        k = 0
+        while k + 1 < len(vals):
+            a, b = vals[k], vals[k + 1]
+            if isinstance(a, ast.Compare) and isinstance(b, ast.Compare) and all(isinstance(o, (ast.Lt, ast.LtE)) for o in a.ops + b.ops) and \
+               _pure(a.comparators[-1]) and ast.dump(a.comparators[-1]) == ast.dump(b.left):
+                vals[k:k + 2] = [ast.copy_location(ast.Compare(left=a.left, ops=a.ops + b.ops, comparators=a.comparators + b.comparators), a)]
+            else: k += 1
+        if len(vals) == 1: return vals[0]
+        node.values = vals
+        return node
+
+    # N16: `try: x = D[K]` / `except KeyError: A` / `else: B`  is  `if K in D: x = D[K]; B` / `else: A` (simple D and K)
+    def visit_Try(self, node):
+        self.generic_visit(node)
+        if len(node.body) == 1 and len(node.handlers) == 1 and not node.finalbody:
+            st, h = node.body[0], node.handlers[0]
+            if isinstance(st, ast.Assign) and len(st.targets) == 1 and isinstance(st.targets[0], ast.Name) and isinstance(st.value, ast.Subscript) \
+               and _sel_simple(st.value.value) and _sel_simple(st.value.slice) and not isinstance(st.value.slice, ast.Constant) \
+               and isinstance(h.type, ast.Name) and h.type.id == 'KeyError' and h.name is None and h.body:
+                test = ast.copy_location(ast.Compare(left=copy.deepcopy(st.value.slice), ops=[ast.In()], comparators=[copy.deepcopy(st.value.value)]), node)
+                new = ast.copy_location(ast.If(test=test, body=[st] + list(node.orelse), orelse=list(h.body)), node)
+                return new
+        return node
+
+    def visit_SetComp(self, node):
+        self.generic_visit(node)
+        lc = ast.copy_location(ast.ListComp(elt=node.elt, generators=node.generators), node)
+        return ast.copy_location(ast.Call(func=ast.copy_location(ast.Name(id='set', ctx=ast.Load()), node), args=[lc], keywords=[]), node)
+
+    def visit_DictComp(self, node):
+        self.generic_visit(node)
+        tup = ast.copy_location(ast.Tuple(elts=[node.key, node.value], ctx=ast.Load()), node)
+        lc = ast.copy_location(ast.ListComp(elt=tup, generators=node.generators), node)
+        return ast.copy_location(ast.Call(func=ast.copy_location(ast.Name(id='dict', ctx=ast.Load()), node), args=[lc], keywords=[]), node)
 
     def visit_Assign(self, node):
         self.generic_visit(node)
@@ -234,7 +329,300 @@ def _new_closures(tree, modname):
     return out
 
 
+# ---------------------------------------------------------------------------
+# N10: a `for` over a short literal table is the sequence of its iterations
+#
+# `for tmax, reg, fn in ((350., 1, sat), (590., 3, b23p)): if t <= tmax: return ...` is what "replace the if-chain by a
+# table" produces.  The loop is replaced by one copy of its body per row with the targets substituted, when the table is a
+# literal (or a local bound once to one) of at most 8 rows of simple expressions, the body neither rebinds a target nor
+# contains break / continue, and there is no else clause.
+
+class _SubstNames(ast.NodeTransformer):
+    def __init__(self, mapping): self.mapping = mapping
+    def visit_Name(self, n):
+        if isinstance(n.ctx, ast.Load) and n.id in self.mapping: return copy.deepcopy(self.mapping[n.id])
+        return n
+    def visit_Call(self, n):
+        self.generic_visit(n)
+        # (lambda a: E)(x) with simple x  ->  E[a := x]
+        f = n.func
+        if isinstance(f, ast.Lambda) and not n.keywords and len(n.args) == len(f.args.args) and all(_simple_elt(x) and not isinstance(x, ast.Lambda) for x in n.args):
+            return _SubstNames(dict((p.arg, x) for p, x in zip(f.args.args, n.args))).visit(copy.deepcopy(f.body))
+        return n
+
+
+def _row_ok(e):
+    if isinstance(e, (ast.Tuple, ast.List)): return all(_simple_elt(x) for x in e.elts)
+    return _simple_elt(e)
+
+
+def _simple_elt(e):
+    if isinstance(e, (ast.Name, ast.Constant)): return True
+    if isinstance(e, ast.Lambda):
+        # a constant or projection function in a table row: `lambda t: 1.e8`
+        a = e.args
+        return not (a.vararg or a.kwarg or a.kwonlyargs or a.defaults) and _simple_elt(e.body)
+    if isinstance(e, ast.Attribute): return _simple_elt(e.value)
+    if isinstance(e, ast.UnaryOp) and isinstance(e.op, (ast.USub, ast.UAdd)): return _simple_elt(e.operand)
+    return False
+
+
+def _unroll_in(fn, class_tables=None):
+    class_tables = class_tables or {}
+    binds = {}
+    for n in ast.walk(fn):
+        if isinstance(n, ast.Assign):
+            for t in n.targets:
+                for x in ast.walk(t):
+                    if isinstance(x, ast.Name): binds.setdefault(x.id, []).append(n)
+        elif isinstance(n, (ast.AugAssign, ast.For, ast.With, ast.comprehension)):
+            t = n.target if not isinstance(n, ast.With) else None
+            if t is not None:
+                for x in ast.walk(t):
+                    if isinstance(x, ast.Name): binds.setdefault(x.id, []).append(n)
+
+    def table(it):
+        if isinstance(it, ast.Attribute) and isinstance(it.value, ast.Name) and it.value.id == 'self' and it.attr in class_tables:
+            it = class_tables[it.attr]
+        if isinstance(it, ast.Name):
+            b = binds.get(it.id, [])
+            if len(b) == 1 and isinstance(b[0], ast.Assign) and len(b[0].targets) == 1 and isinstance(b[0].targets[0], ast.Name):
+                it = b[0].value
+            else: return None
+        if isinstance(it, (ast.Tuple, ast.List)) and 0 < len(it.elts) <= 8 and all(_row_ok(r) for r in it.elts): return it.elts
+        return None
+
+    class U(ast.NodeTransformer):
+        def visit_FunctionDef(self, node):
+            if node is not fn: return node
+            self.generic_visit(node); return node
+        def visit_For(self, node):
+            self.generic_visit(node)
+            rows = table(node.iter)
+            if rows is None or node.orelse: return node
+            tg = node.target
+            names = [tg.id] if isinstance(tg, ast.Name) else ([e.id for e in tg.elts] if isinstance(tg, ast.Tuple) and all(isinstance(e, ast.Name) for e in tg.elts) else None)
+            if names is None: return node
+            body_nodes = [x for st in node.body for x in ast.walk(st)]
+            # "first row that matches": the body is one `if C: ...; break` -> an if / elif chain over the rows
+            first_match = len(node.body) == 1 and isinstance(node.body[0], ast.If) and not node.body[0].orelse and \
+                isinstance(node.body[0].body[-1], ast.Break) and len(node.body[0].body) > 1 and \
+                sum(1 for x in body_nodes if isinstance(x, (ast.Break, ast.Continue))) == 1
+            if first_match:
+                if any(isinstance(x, (ast.FunctionDef, ast.Lambda)) for x in body_nodes): return node
+                if any(isinstance(x, ast.Name) and isinstance(x.ctx, (ast.Store, ast.Del)) and x.id in names for x in body_nodes): return node
+                chain = []
+                for r in reversed(rows):
+                    if isinstance(tg, ast.Name): m = {tg.id: r}
+                    else:
+                        if not isinstance(r, (ast.Tuple, ast.List)) or len(r.elts) != len(names): return node
+                        m = dict(zip(names, r.elts))
+                    one = copy.deepcopy(node.body[0])
+                    one.body = one.body[:-1]
+                    one = _SubstNames(m).visit(one)
+                    one.orelse = chain
+                    chain = [ast.fix_missing_locations(ast.copy_location(one, node))]
+                return chain
+            if any(isinstance(x, (ast.Break, ast.Continue, ast.FunctionDef, ast.Lambda)) for x in body_nodes): return node
+            if any(isinstance(x, ast.Name) and isinstance(x.ctx, (ast.Store, ast.Del)) and x.id in names for x in body_nodes): return node
+            # the targets must not be read after the loop
+            after_use = False
+            out = []
+            for r in rows:
+                if isinstance(tg, ast.Name): m = {tg.id: r}
+                else:
+                    if not isinstance(r, (ast.Tuple, ast.List)) or len(r.elts) != len(names): return node
+                    m = dict(zip(names, r.elts))
+                for st in node.body:
+                    out.append(ast.fix_missing_locations(ast.copy_location(_SubstNames(m).visit(copy.deepcopy(st)), st)))
+            return out
+    # targets read after the loop keep their last value in the original: only unroll when no target is loaded outside the loop
+    loops = [n for n in ast.walk(fn) if isinstance(n, ast.For)]
+    for lp in loops:
+        tnames = set(x.id for x in ast.walk(lp.target) if isinstance(x, ast.Name))
+        # (a load inside another loop that binds the same name itself belongs to that loop)
+        inside = dict((id(x), None) for x in ast.walk(lp))
+        for other in loops:
+            onames = set(x.id for x in ast.walk(other.target) if isinstance(x, ast.Name))
+            for x in ast.walk(other):
+                if isinstance(x, ast.Name) and x.id in onames: inside[id(x)] = None
+        if any(isinstance(x, ast.Name) and x.id in tnames and isinstance(x.ctx, ast.Load) and id(x) not in inside for x in ast.walk(fn)):
+            lp.orelse = lp.orelse or [ast.Pass()]       # marks it as not unrollable
+            lp._keep = True
+    U().visit(fn)
+    for lp in ast.walk(fn):
+        if isinstance(lp, ast.For) and getattr(lp, '_keep', False) and len(lp.orelse) == 1 and isinstance(lp.orelse[0], ast.Pass): lp.orelse = []
+    return fn
+
+
+def unroll_tables(tree):
+    stored_attrs = set(x.attr for x in ast.walk(tree) if isinstance(x, ast.Attribute) and isinstance(x.ctx, (ast.Store, ast.Del)))
+    in_class = {}
+    for c in [n for n in ast.walk(tree) if isinstance(n, ast.ClassDef)]:
+        # class-level literal tables: bound once in the class body and never stored through an attribute anywhere in the module
+        cnt = {}
+        for st in c.body:
+            if isinstance(st, ast.Assign):
+                for t in st.targets:
+                    for x in ast.walk(t):
+                        if isinstance(x, ast.Name): cnt.setdefault(x.id, []).append(st)
+        tabs = dict((nm, sts[0].value) for nm, sts in cnt.items() if len(sts) == 1 and len(sts[0].targets) == 1 and isinstance(sts[0].targets[0], ast.Name)
+                    and isinstance(sts[0].value, (ast.Tuple, ast.List)) and nm not in stored_attrs)
+        for st in c.body:
+            if isinstance(st, ast.FunctionDef): in_class[id(st)] = tabs
+    for fn in [n for n in ast.walk(tree) if isinstance(n, ast.FunctionDef)]:
+        tabs = in_class.get(id(fn)) or {}
+        # cheap pre-filter: a loop over a literal, a plain name, or a class-level table
+        def maybe(it):
+            if isinstance(it, (ast.Tuple, ast.List)): return True
+            if isinstance(it, ast.Name): return True
+            return isinstance(it, ast.Attribute) and isinstance(it.value, ast.Name) and it.value.id == 'self' and it.attr in tabs
+        if any(isinstance(x, ast.For) and maybe(x.iter) for x in ast.walk(fn)): _unroll_in(fn, tabs)
+    return tree
+
+
+# ---------------------------------------------------------------------------
+# N13: a local that only caches an attribute chain is the chain
+#
+# `scale = self.unit_scale` / `grid = self.grid` / `block = grid.block` at the top of a function (or of a loop body), bound once
+# and only read afterwards, is what "read it once into a local" produces.  Its reads are replaced by the chain when the chain
+# is rooted at a name that is never re-bound in the function, every attribute in it is a plain data attribute (not a method,
+# not a property with a computing getter) that the function never stores to, and the local is not captured by a closure.
+
+def _chain(e):
+    names = []
+    while isinstance(e, ast.Attribute):
+        names.append(e.attr); e = e.value
+    if isinstance(e, ast.Name) and names: return e.id, names[::-1]
+    return None, None
+
+
+def _module_attr_kinds(tree):
+    methods, computed = set(), set()
+    for c in ast.walk(tree):
+        if not isinstance(c, ast.ClassDef): continue
+        fns = dict((f.name, f) for f in c.body if isinstance(f, ast.FunctionDef))
+        methods |= set(fns)
+        for st in c.body:
+            if isinstance(st, ast.Assign) and isinstance(st.value, ast.Call) and isinstance(st.value.func, ast.Name) and st.value.func.id == 'property' \
+               and len(st.targets) == 1 and isinstance(st.targets[0], ast.Name):
+                g = fns.get(st.value.args[0].id) if st.value.args and isinstance(st.value.args[0], ast.Name) else None
+                body = _body(g) if g is not None else None
+                trivial = body is not None and len(body) == 1 and isinstance(body[0], ast.Return) and isinstance(body[0].value, ast.Attribute) and \
+                    isinstance(body[0].value.value, ast.Name) and body[0].value.value.id == 'self'
+                computed.add(st.targets[0].id)       # (a trivial getter still reads a backing field that the function may store to)
+        for f in fns.values():
+            for d in f.decorator_list:
+                if isinstance(d, ast.Name) and d.id == 'property': computed.add(f.name)
+    return methods, computed
+
+
+def _alias_locals_in(fn, methods, computed):
+    # cheap pre-filter: is there any `name = <attribute chain>` at all?
+    if not any(isinstance(st, ast.Assign) and len(st.targets) == 1 and isinstance(st.targets[0], ast.Name) and isinstance(st.value, ast.Attribute)
+               and _chain(st.value)[0] is not None for st in ast.walk(fn)):
+        return False
+    params = set(a.arg for a in fn.args.posonlyargs + fn.args.args + fn.args.kwonlyargs)
+    if fn.args.vararg: params.add(fn.args.vararg.arg)
+    if fn.args.kwarg: params.add(fn.args.kwarg.arg)
+    stores, attr_stores, captured = {}, set(), set()
+    order = {}
+    for k, n in enumerate(_preorder(fn)):
+        order[id(n)] = k
+    for n in ast.walk(fn):
+        if isinstance(n, ast.Name) and isinstance(n.ctx, (ast.Store, ast.Del)): stores[n.id] = stores.get(n.id, 0) + 1
+        if isinstance(n, ast.Attribute) and isinstance(n.ctx, (ast.Store, ast.Del)):
+            # stored through which object: `con.block = ...` does not touch `self.block` (different root objects)
+            r_, _a = _chain(n)
+            attr_stores.add((r_, n.attr))
+        if isinstance(n, (ast.Global, ast.Nonlocal)):
+            for nm in n.names: stores[nm] = stores.get(nm, 0) + 2
+        if isinstance(n, (ast.FunctionDef, ast.Lambda)) and n is not fn:
+            for x in ast.walk(n):
+                if isinstance(x, ast.Name): captured.add(x.id)
+        if isinstance(n, ast.ExceptHandler) and n.name: stores[n.name] = stores.get(n.name, 0) + 1
+    cands = {}
+    for st in ast.walk(fn):
+        if isinstance(st, ast.Assign) and len(st.targets) == 1 and isinstance(st.targets[0], ast.Name):
+            t = st.targets[0].id
+            root, attrs = _chain(st.value)
+            if root is None or t in params or stores.get(t, 0) != 1 or t in captured: continue
+            if stores.get(root, 0) > 1: continue
+            if stores.get(root, 0) == 1:
+                # a root bound exactly once, before the alias is taken (a looked-up object, a loop variable)
+                rs_ = [x for x in ast.walk(fn) if isinstance(x, ast.Name) and x.id == root and isinstance(x.ctx, (ast.Store, ast.Del))]
+                if root in params or not rs_ or order[id(rs_[0])] > order[id(st)]: continue
+            if any(a in methods or a in computed or a.startswith('__') for a in attrs): continue
+            if any((r2, a) in attr_stores for a in attrs for r2 in (root, None)): continue      # (None: stored through a non-chain expression)
+            cands[t] = st
+    if not cands: return False
+    # every read comes after the binding
+    for n in ast.walk(fn):
+        if isinstance(n, ast.Name) and isinstance(n.ctx, ast.Load) and n.id in cands and order[id(n)] < order[id(cands[n.id])]:
+            del cands[n.id]
+    if not cands: return False
+    class R(ast.NodeTransformer):
+        def visit_FunctionDef(self, node):
+            if node is not fn: return node
+            self.generic_visit(node); return node
+        def visit_Lambda(self, node): return node
+        def visit_Name(self, n):
+            if isinstance(n.ctx, ast.Load) and n.id in cands:
+                return ast.copy_location(copy.deepcopy(cands[n.id].value), n)
+            return n
+        def visit_Assign(self, node):
+            if any(node is st for st in cands.values()): return ast.copy_location(ast.Pass(), node)
+            self.generic_visit(node); return node
+    R().visit(fn)
+    return True
+
+
+def _preorder(n):
+    yield n
+    for c in ast.iter_child_nodes(n):
+        for x in _preorder(c): yield x
+
+
+class _SplitTuples(ast.NodeTransformer):
+    """`a, b = X, Y` with X, Y attribute chains / names / constants that do not mention a or b is `a = X; b = Y`"""
+    def _split(self, stmts):
+        out = []
+        for st in stmts:
+            if isinstance(st, ast.Assign) and len(st.targets) == 1 and isinstance(st.targets[0], ast.Tuple) and isinstance(st.value, ast.Tuple) and \
+               len(st.targets[0].elts) == len(st.value.elts) and all(isinstance(t, ast.Name) for t in st.targets[0].elts) and \
+               all(_sel_simple(v) and not isinstance(v, ast.Constant) or isinstance(v, ast.Attribute) for v in st.value.elts) and \
+               any(isinstance(v, ast.Attribute) for v in st.value.elts):
+                tn = set(t.id for t in st.targets[0].elts)
+                if not any(isinstance(x, ast.Name) and x.id in tn for v in st.value.elts for x in ast.walk(v)):
+                    for t, v in zip(st.targets[0].elts, st.value.elts):
+                        out.append(ast.copy_location(ast.Assign(targets=[t], value=v), st))
+                    continue
+            out.append(st)
+        return out
+    def generic_visit(self, node):
+        super().generic_visit(node)
+        for f in ('body', 'orelse', 'finalbody'):
+            b = getattr(node, f, None)
+            if isinstance(b, list) and b and isinstance(b[0], ast.stmt): setattr(node, f, self._split(b))
+        return node
+
+
+LIBRARY_METHODS, LIBRARY_PROPERTIES = set(), set()      # filled by core.Program for the whole library before any module is normalised
+
+
+def alias_locals(tree):
+    tree = _SplitTuples().visit(tree)
+    methods, computed = _module_attr_kinds(tree)
+    methods, computed = methods | LIBRARY_METHODS, computed | LIBRARY_PROPERTIES
+    for fn in [n for n in ast.walk(tree) if isinstance(n, ast.FunctionDef)]:
+        for _ in range(3):          # chains of aliases: grid = self.grid; block = grid.block
+            if not _alias_locals_in(fn, methods, computed): break
+    return tree
+
+
 def normalise(tree, modname=None):
+    tree = unroll_tables(tree)               # N10
+    tree = alias_locals(tree)                # N13
     tree = _Norm().visit(tree)
     ast.fix_missing_locations(tree)
     closures = _new_closures(tree, modname) if isinstance(tree, ast.Module) else {}
